@@ -9,7 +9,7 @@ def regen_locks(verif_dir, repo_dir, goenv):
     coq/theories/Gen/{ClientLocks,ServerLocks}.v when their content changed.
     Returns None on success, an error string otherwise."""
     hd = os.path.join(verif_dir, "harness")
-    gen = os.path.join(verif_dir, "coq", "theories", "Gen")
+    gen = os.path.join(os.environ.get("VERIF_COQ") or os.path.join(verif_dir, "coq"), "theories", "Gen")
     os.makedirs(gen, exist_ok=True)
     tmp = tempfile.mkdtemp(prefix="locksum-")
     try:
